@@ -488,7 +488,7 @@ class Frame:
         assert self._data is not None
 
         x, y = item
-        if x > self.width or y > self.height:
+        if x < 0 or y < 0 or x >= self.width or y >= self.height:
             raise IndexError(item)
         off = (y * self.width + x) * 4
         return Pixel(*self._data[off: off + 4])
@@ -503,7 +503,7 @@ class Frame:
         assert self._data is not None
 
         x, y = item
-        if x > self.width or y > self.height:
+        if x < 0 or y < 0 or x >= self.width or y >= self.height:
             raise IndexError(item)
         off = (y * self.width + x) * 4
         [
